@@ -352,6 +352,16 @@ def gen_conveyor_project(rng):
     for k in range(nsub):
         if rng.random() < 0.8:
             edges.append([k, nsub, rng.choice([0, 0, 0, 1])])
+    if rng.random() < 0.4:
+        # a second, automatic task on sub-component 0 that becomes READY in the same step as the
+        # assembly's task (both follow the sub-component's first task) and wants another workplace:
+        # the sub-component may move on its own OR be carried by its assembly in that step, not both
+        tasks.append({"name": rng.choice([0, 1]), "work": qs(rng.choice([Fraction(1), Fraction(2), Fraction(3)])), "progress": "0/1", "auto": True,
+                      "rate": "1/1", "need_fac": False, "comp": 0, "teams": [], "wps": [rng.randrange(nwp)],
+                      "fixw": None, "fixf": None, "due": -1, "wrule": -1, "frule": 0, "prule": rng.choice([0, 1])})
+        edges.append([0, len(tasks) - 1, 0])
+        if not any(e[0] == 0 and e[1] == nsub for e in edges):
+            edges.append([0, nsub, 0])
     wps = []
     for pi in range(nwp):
         wps.append({"cap": qs(rng.choice([Fraction(4), Fraction(3), Fraction(5, 2)])), "inputs": [],
